@@ -216,6 +216,8 @@ def observe(M, net, engine, step_kwargs, symvals: SymVals = None):
         for e in desc[grp]:
             for k in list(e):
                 e[k] = fill(e[k])
+    if desc.get("node_off"):
+        desc["node_off"] = {k: fill(v) for k, v in desc["node_off"].items()}
     vals, nxt = {}, {}
     for eid, vs in valslots.items():
         d = {}
